@@ -1,2 +1,1078 @@
 (* Lemmas behind Props/C16.v. *)
-From TT Require Import Lib.Base Model.Utf8 Model.MimeCt Model.Content Spec.C16 Corr.C16.
+From Coq Require Import String Permutation.
+From TT Require Import Lib.Base Lib.Sort Model.Utf8 Model.MimeCt Model.Content Spec.C16 Corr.C16 Proof.Utf8Sweep.
+
+
+(* ================= 1. chunk independence, for every byte automaton ================= *)
+Section Chunking.
+  Variable C : codec.
+
+  Lemma feed_app : forall a b s,
+    feed C s (a ++ b) =
+    match feed C s a with
+    | None => None
+    | Some (s1, o1) => match feed C s1 b with
+                       | None => None
+                       | Some (s2, o2) => Some (s2, o1 ++ o2)
+                       end
+    end.
+  Proof.
+    induction a as [|x a IH]; intros b s; simpl.
+    - destruct (feed C s b) as [[s2 o2]|]; reflexivity.
+    - destruct (dstep C s x) as [[s' o]|]; [|reflexivity].
+      rewrite IH. destruct (feed C s' a) as [[s1 o1]|]; [|reflexivity].
+      destruct (feed C s1 b) as [[s2 o2]|]; [|reflexivity].
+      destruct o; reflexivity.
+  Qed.
+
+  (* what the generator loop yields, joined, from any decoder state *)
+  Definition joined_text (s : dstate C) (chunks : list chunk) : option (list N) :=
+    option_map (@concat N) (iter_text_loop C s chunks).
+
+  Definition decode_from (s : dstate C) (bs : list N) : option (list N) :=
+    match feed C s bs with
+    | None => None
+    | Some (s', out) => match flush C s' with None => None | Some fin => Some (out ++ fin) end
+    end.
+
+  Lemma flush_nil s fin : flush C s = Some fin -> fin = [].
+  Proof. unfold flush. destruct (dfinal C s); congruence. Qed.
+
+  Lemma chunking_from : forall chunks s, joined_text s chunks = decode_from s (concat chunks).
+  Proof.
+    unfold joined_text, decode_from.
+    induction chunks as [|c r IH]; intro s; simpl.
+    - destruct (flush C s) as [fin|] eqn:E; [|reflexivity].
+      rewrite (flush_nil _ _ E). reflexivity.
+    - rewrite feed_app. destruct (feed C s c) as [[s1 o1]|]; [|reflexivity].
+      specialize (IH s1).
+      destruct (iter_text_loop C s1 r) as [pieces|]; simpl in *.
+      + destruct (feed C s1 (concat r)) as [[s2 o2]|]; [|discriminate].
+        destruct (flush C s2) as [fin|]; [|discriminate].
+        injection IH as IH. rewrite IH, app_assoc. reflexivity.
+      + destruct (feed C s1 (concat r)) as [[s2 o2]|]; [|reflexivity].
+        destruct (flush C s2); [discriminate|reflexivity].
+  Qed.
+
+  Theorem chunking : forall chunks, joined_text (dinit C) chunks = decode_whole C (concat chunks).
+  Proof. intro chunks. apply chunking_from. Qed.
+
+  Corollary chunking_indep : forall c1 c2, concat c1 = concat c2 ->
+    joined_text (dinit C) c1 = joined_text (dinit C) c2.
+  Proof. intros c1 c2 E. rewrite !chunking, E. reflexivity. Qed.
+End Chunking.
+
+
+(* ================= reflection of the comparison functions ================= *)
+Lemma bytes_eqb_spec a b : bytes_eqb a b = true <-> a = b.
+Proof. apply list_eqb_spec. intros; apply N.eqb_eq. Qed.
+Lemma bytes_eqb_refl a : bytes_eqb a a = true.
+Proof. apply bytes_eqb_spec. reflexivity. Qed.
+Lemma exn_eqb_spec a b : exn_eqb a b = true <-> a = b.
+Proof. destruct a, b; simpl; split; congruence. Qed.
+Lemma tres_eqb_spec a b : tres_eqb a b = true <-> a = b.
+Proof. apply res_eqb_spec; [apply bytes_eqb_spec|apply exn_eqb_spec]. Qed.
+Lemma tres_eqb_refl a : tres_eqb a a = true.
+Proof. apply tres_eqb_spec. reflexivity. Qed.
+Lemma chunks_eqb_spec a b : chunks_eqb a b = true <-> a = b.
+Proof. apply list_eqb_spec. apply bytes_eqb_spec. Qed.
+Lemma str_eqb_spec a b : str_eqb a b = true <-> a = b.
+Proof. apply bytes_eqb_spec. Qed.
+Lemma str_eqb_refl a : str_eqb a a = true.
+Proof. apply str_eqb_spec. reflexivity. Qed.
+
+(* ================= 2. as_text of a content over stored chunks ================= *)
+Lemma iter_text_whole C chunks :
+  match iter_text_loop C (dinit C) chunks with
+  | None => Raised UnicodeDecodeError
+  | Some pieces => Ok (concat pieces)
+  end = whole C (concat chunks).
+Proof.
+  unfold whole. rewrite <- chunking. unfold joined_text.
+  destruct (iter_text_loop C (dinit C) chunks); reflexivity.
+Qed.
+
+Lemma as_text_stored ct chunks w :
+  as_text {| c_type := ct; c_src := Stored chunks |} w =
+  (if negb (str_eqb (ct_type ct) (sb "text")) then Raised ValueError
+   else match codec_of (declared_charset ct) with
+        | None => Raised LookupError
+        | Some C => whole C (concat chunks)
+        end, w).
+Proof.
+  unfold as_text, iter_bytes; simpl.
+  destruct (negb (str_eqb (ct_type ct) (sb "text"))); [reflexivity|].
+  destruct (codec_of (declared_charset ct)) as [C|]; [|reflexivity].
+  rewrite <- iter_text_whole.
+  destruct (iter_text_loop C (dinit C) chunks); reflexivity.
+Qed.
+
+Lemma text_okb_stored ct chunks w :
+  text_okb ct (concat chunks) (fst (as_text {| c_type := ct; c_src := Stored chunks |} w)) = true.
+Proof.
+  rewrite as_text_stored. unfold text_okb; simpl.
+  destruct (str_eqb (ct_type ct) (sb "text")); simpl; [|reflexivity].
+  destruct (codec_of (declared_charset ct)); [apply tres_eqb_refl|reflexivity].
+Qed.
+
+(* ================= 3. UTF-8: decode after encode ================= *)
+Lemma feed_utf8_encode s : forallb is_scalar s = true -> feed utf8 U0 (utf8_encode s) = Some (U0, s).
+Proof.
+  induction s as [|c s IH]; intro H; [reflexivity|].
+  simpl in H. apply andb_true_iff in H as [Hc Hs].
+  unfold utf8_encode. simpl flat_map. rewrite feed_app.
+  change (dstate utf8) with u8state in *.
+  rewrite (utf8_enc1_decodes c Hc). fold (utf8_encode s). specialize (IH Hs). rewrite IH. reflexivity.
+Qed.
+
+Theorem utf8_roundtrip s : forallb is_scalar s = true -> decode_whole utf8 (utf8_encode s) = Some s.
+Proof.
+  intro H. unfold decode_whole. change (dinit utf8) with U0. pose proof (feed_utf8_encode s H) as E. rewrite E. simpl. rewrite app_nil_r. reflexivity.
+Qed.
+
+Lemma utf8_text_ct : str_eqb (ct_type Gen.Ctc16.UTF8_TEXT) (sb "text") = true
+                     /\ codec_of (declared_charset Gen.Ctc16.UTF8_TEXT) = Some utf8.
+Proof. split; vm_compute; reflexivity. Qed.
+
+Theorem text_roundtrip s w : forallb is_scalar s = true -> as_text (text_content s) w = (Ok s, w).
+Proof.
+  intro H. unfold text_content. rewrite as_text_stored.
+  destruct utf8_text_ct as [E1 E2]. rewrite E1, E2. simpl.
+  unfold whole. rewrite app_nil_r, (utf8_roundtrip s H). reflexivity.
+Qed.
+
+(* ================= 4. the read loop ================= *)
+Lemma skipn_skipn {A} a : forall b (l : list A), skipn a (skipn b l) = skipn (b + a) l.
+Proof.
+  induction b as [|b IH]; intro l; [reflexivity|].
+  destruct l; simpl; [apply skipn_nil|apply IH].
+Qed.
+
+Lemma firstn_nil_inv {A} n (l : list A) : 1 <= n -> firstn n l = [] -> l = [].
+Proof. destruct n; [lia|]. destruct l; simpl; [reflexivity|discriminate]. Qed.
+
+Lemma skipn_firstn_len {A} n (l : list A) : skipn (length (firstn n l)) l = skipn n l.
+Proof.
+  rewrite firstn_length. destruct (Nat.le_ge_cases n (length l)) as [L|G].
+  - rewrite Nat.min_l by exact L. reflexivity.
+  - rewrite Nat.min_r by exact G. rewrite !skipn_all2; [reflexivity|exact G|lia].
+Qed.
+
+Theorem read_loop_spec : forall fuel data pos n, 1 <= n -> length data - pos < fuel ->
+  exists cs, read_loop fuel data pos n = Some (cs, Nat.max pos (length data), S (length cs))
+             /\ Forall (fun c => c <> []) cs
+             /\ Forall (fun c => length c <= n) cs
+             /\ concat cs = skipn pos data.
+Proof.
+  induction fuel as [|f IH]; intros data pos n Hn Hf; [lia|].
+  cbn [read_loop]. unfold read_at.
+  destruct (firstn n (skipn pos data)) as [|x c'] eqn:E.
+  - apply (firstn_nil_inv _ _ Hn) in E.
+    assert (L : length data <= pos).
+    { pose proof (skipn_length pos data) as Hl. rewrite E in Hl. simpl in Hl. lia. }
+    exists []. rewrite Nat.max_l by exact L. rewrite E. repeat split; constructor.
+  - set (c := x :: c') in *.
+    assert (Hlen : length c = Nat.min n (length data - pos)).
+    { rewrite <- E, firstn_length, skipn_length. reflexivity. }
+    assert (Hpos : 1 <= length c) by (subst c; simpl; lia).
+    destruct (IH data (pos + length c) n Hn ltac:(lia)) as [cs [R [F1 [F2 Hc]]]].
+    rewrite R. exists (c :: cs). repeat split.
+    + f_equal. f_equal. f_equal. lia.
+    + constructor; [subst c; discriminate|exact F1].
+    + constructor; [lia|exact F2].
+    + change (concat (c :: cs)) with (c ++ concat cs). rewrite Hc, <- skipn_skipn. clearbody c. subst c.
+      rewrite skipn_firstn_len. apply firstn_skipn.
+Qed.
+
+(* chunk_size >= 1: the fuel run_reader supplies is enough, and the result is what the statement asks for *)
+Lemma chunks_okb_intro n cs bs :
+  Forall (fun c => c <> []) cs -> Forall (fun c => length c <= n) cs -> concat cs = bs -> chunks_okb n cs bs = true.
+Proof.
+  intros F1 F2 E. unfold chunks_okb. rewrite E, bytes_eqb_refl, andb_true_r.
+  apply andb_true_iff; split; apply forallb_forall; intros c Hc.
+  - rewrite Forall_forall in F1. specialize (F1 c Hc). destruct c; [congruence|reflexivity].
+  - rewrite Forall_forall in F2. apply Nat.leb_le. exact (F2 c Hc).
+Qed.
+
+Definition after_read (k : skind) (w : world) (p r : nat) : world :=
+  {| w_data := w_data w;
+     w_pos := match k with KBytesIO => Nat.max p (length (w_data w)) | KFile => w_pos w end;
+     w_reads := w_reads w + r |}.
+
+Theorem run_reader_ok k n sk w p : 1 <= n ->
+  start_of k (length (w_data w)) (w_pos w) sk = Ok p ->
+  exists cs, run_reader k n sk w = (Ok cs, after_read k w p (S (length cs)))
+             /\ Forall (fun c => c <> []) cs /\ Forall (fun c => length c <= n) cs
+             /\ concat cs = skipn p (w_data w).
+Proof.
+  intros Hn Hs. unfold run_reader. unfold start_of in Hs.
+  replace (match sk with
+           | Some (off, wh) => seek_pos k (length (w_data w)) off wh
+           | None => Ok match k with KBytesIO => w_pos w | KFile => 0 end
+           end) with (@Ok nat exn p).
+  destruct (read_loop_spec (length (w_data w) - p + 1) (w_data w) p n Hn ltac:(lia)) as [cs [R H]].
+  rewrite R. exists cs. split; [reflexivity|exact H].
+Qed.
+
+Lemma run_reader_raises k n sk w e :
+  start_of k (length (w_data w)) (w_pos w) sk = Raised e -> run_reader k n sk w = (Raised e, w).
+Proof.
+  intro Hs. unfold run_reader. unfold start_of in Hs.
+  replace (match sk with
+           | Some (off, wh) => seek_pos k (length (w_data w)) off wh
+           | None => Ok match k with KBytesIO => w_pos w | KFile => 0 end
+           end) with (@Raised nat exn e). reflexivity.
+Qed.
+
+
+(* ================= 5. laziness, buffer_now, snapshots ================= *)
+Lemma exn_eqb_refl e : exn_eqb e e = true.
+Proof. destruct e; reflexivity. Qed.
+Lemma chunks_eqb_refl c : chunks_eqb c c = true.
+Proof. apply chunks_eqb_spec. reflexivity. Qed.
+
+(* one full iteration of the live reader, against "the bytes from the requested offset to EOF" *)
+Lemma run_reader_want k n sk w : 1 <= n ->
+  match start_of k (length (w_data w)) (w_pos w) sk with
+  | Raised e => run_reader k n sk w = (Raised e, w)
+  | Ok p => exists cs, run_reader k n sk w = (Ok cs, after_read k w p (S (length cs)))
+                       /\ chunks_okb n cs (skipn p (w_data w)) = true
+  end.
+Proof.
+  intro Hn. destruct (start_of k (length (w_data w)) (w_pos w) sk) as [p|e] eqn:E.
+  - destruct (run_reader_ok k n sk w p Hn E) as [cs [R [F1 [F2 Hc]]]].
+    exists cs. split; [exact R|]. apply chunks_okb_intro; assumption.
+  - apply run_reader_raises. exact E.
+Qed.
+
+(* the second iteration starts where the statement says *)
+Lemma start_of_again k len pos p sk : start_of k len pos sk = Ok p ->
+  start_of k len (match k with KBytesIO => Nat.max p len | KFile => pos end) sk
+  = start_of k len (pos_after len p) sk
+  /\ exists p2, start_of k len (pos_after len p) sk = Ok p2.
+Proof.
+  unfold start_of, pos_after. destruct sk as [[off wh]|]; intro H.
+  - split; [reflexivity|]. exists p. exact H.
+  - destruct k; split; try reflexivity; eexists; reflexivity.
+Qed.
+
+Theorem reader_holds r : 1 <= r_chunk r -> spec_okb (IReader r) (model_reader r) = true.
+Proof.
+  intro Hn. destruct r as [k d0 p0 sk n b d1 p1]. simpl in Hn.
+  unfold model_reader, content_from_source, content_from_reader. cbn [r_kind r_data0 r_pos0 r_seek r_chunk r_buffer r_data1 r_pos1].
+  destruct b.
+  - (* buffer_now *)
+    cbn [iter_src].
+    pose proof (run_reader_want k n sk (w_init d0 p0) Hn) as H. cbn [w_init w_data w_pos] in H.
+    cbn [spec_okb]. unfold reader_okb, want. cbn [r_kind r_data0 r_pos0 r_seek r_chunk r_buffer r_data1 r_pos1].
+    destruct (start_of k (length d0) p0 sk) as [p|e].
+    + destruct H as [cs [R Hok]]. rewrite R. cbn [iter_bytes c_src iter_src set_source after_read w_reads w_init].
+      rewrite Hok, chunks_eqb_refl, Nat.ltb_irrefl. reflexivity.
+    + rewrite H. cbn. apply exn_eqb_refl.
+  - (* lazy *)
+    cbn [iter_bytes c_src iter_src w_init w_reads].
+    set (wc := {| w_data := d1; w_pos := p1; w_reads := 0 |}).
+    change (set_source (w_init d0 p0) d1 p1) with wc. change (w_reads (w_init d0 p0)) with 0.
+    pose proof (run_reader_want k n sk wc Hn) as H. cbn [wc w_data w_pos] in H.
+    cbn [spec_okb]. unfold reader_okb, want. cbn [r_kind r_data0 r_pos0 r_seek r_chunk r_buffer r_data1 r_pos1].
+    destruct (start_of k (length d1) p1 sk) as [p|e] eqn:E.
+    + destruct H as [cs [R Hok]]. rewrite R.
+      set (wd := after_read k wc p (S (length cs))).
+      pose proof (run_reader_want k n sk wd Hn) as H2. cbn [wd wc after_read w_data w_pos] in H2.
+      destruct (start_of_again k (length d1) p1 p sk E) as [E2 [p2 E3]].
+      rewrite E2, E3 in H2. destruct H2 as [cs2 [R2 Hok2]]. fold wc in R2. fold wd in R2. rewrite R2.
+      rewrite E3. cbn [iter_okb negb andb Nat.ltb Nat.leb]. rewrite Hok, Hok2. reflexivity.
+    + rewrite H, H. cbn. rewrite exn_eqb_refl. reflexivity.
+Qed.
+
+
+Lemma chunks_okb_joined n cs bs : chunks_okb n cs bs = true -> bytes_eqb (concat cs) bs = true.
+Proof. unfold chunks_okb. intro H. apply andb_true_iff in H as [_ H]. exact H. Qed.
+
+Theorem snap_holds r : 1 <= r_chunk r -> spec_okb (ISnap r) (model_snap r) = true.
+Proof.
+  intro Hn. destruct r as [k d0 p0 sk n b d1 p1]. simpl in Hn.
+  unfold model_snap, content_from_source, content_from_reader, copy_content.
+  cbn [r_kind r_data0 r_pos0 r_seek r_chunk r_buffer r_data1 r_pos1 iter_bytes c_src c_type iter_src].
+  pose proof (run_reader_want k n sk (w_init d0 p0) Hn) as H. cbn [w_init w_data w_pos] in H.
+  cbn [spec_okb]. unfold snap_okb, want. cbn [r_kind r_data0 r_pos0 r_seek r_chunk r_buffer r_data1 r_pos1].
+  destruct (start_of k (length d0) p0 sk) as [p|e].
+  - destruct H as [cs [R Hok]]. rewrite R. cbn [iter_bytes c_src c_type iter_src].
+    set (wd := set_source _ d1 p1).
+    pose proof (run_reader_want k n sk wd Hn) as H2. cbn [wd set_source w_data w_pos] in H2.
+    rewrite Nat.ltb_irrefl.
+    assert (Hct : ct_eqb Gen.Ctc16.UTF8_TEXT Gen.Ctc16.UTF8_TEXT = true) by (vm_compute; reflexivity).
+    rewrite Hct. apply chunks_okb_joined in Hok.
+    destruct (start_of k (length d1) p1 sk) as [q|e].
+    + destruct H2 as [cs2 [R2 Hok2]]. fold wd in R2. rewrite R2. cbn [joined_okb negb andb].
+      rewrite Hok. apply (chunks_okb_joined _ _ _ Hok2).
+    + fold wd in H2. rewrite H2. cbn [joined_okb negb andb]. rewrite Hok. apply exn_eqb_refl.
+  - rewrite H. cbn. apply exn_eqb_refl.
+Qed.
+
+(* ================= 6. __eq__ ================= *)
+Theorem content_eq_stored ta ca tb cb w :
+  content_eq {| c_type := ta; c_src := Stored ca |} {| c_type := tb; c_src := Stored cb |} w
+  = (Ok (ct_eqb ta tb && bytes_eqb (concat ca) (concat cb)), w).
+Proof.
+  unfold content_eq, iter_bytes; simpl. destruct (ct_eqb ta tb); reflexivity.
+Qed.
+
+(* ================= the scenario kinds without a mutable source ================= *)
+Lemma iter_bytes_stored ct cs w : iter_bytes {| c_type := ct; c_src := Stored cs |} w = (Ok cs, w).
+Proof. reflexivity. Qed.
+
+Lemma forallb_map {A B} (f : A -> B) p l : forallb p (map f l) = forallb (fun x => p (f x)) l.
+Proof. induction l; simpl; congruence. Qed.
+
+Lemma sum_runs_rle {A} (eqb : A -> A -> bool) l : sum_runs (rle eqb l) = length l.
+Proof.
+  induction l as [|x l IH]; [reflexivity|]. cbn [rle].
+  destruct (rle eqb l) as [|[y n] t]; simpl in *; [lia|].
+  destruct (eqb x y); simpl; lia.
+Qed.
+
+Lemma rle_forall {A} (eqb : A -> A -> bool) (P : A -> bool) l :
+  forallb P l = true -> forallb (fun p => P (fst p)) (rle eqb l) = true.
+Proof.
+  induction l as [|x l IH]; [reflexivity|]. simpl. intro H. apply andb_true_iff in H as [Hx Hl].
+  specialize (IH Hl). destruct (rle eqb l) as [|[y n] t]; simpl in *; [rewrite Hx; reflexivity|].
+  destruct (eqb x y); simpl; [exact IH|]. rewrite Hx. exact IH.
+Qed.
+
+(* every enumerated split is a split of the data *)
+Lemma splits_concat l : Forall (fun s => concat s = l) (splits l).
+Proof.
+  induction l as [|x r IH]; [repeat constructor|].
+  cbn [splits]. destruct r as [|y r']; [repeat constructor|].
+  apply Forall_forall. intros s Hs. apply in_flat_map in Hs as [s0 [H0 Hs]].
+  rewrite Forall_forall in IH. specialize (IH s0 H0).
+  destruct s0 as [|c t]; [destruct Hs|].
+  destruct Hs as [<-|[<-|[]]]; simpl in *; rewrite IH; reflexivity.
+Qed.
+
+Lemma with_empties_concat s : concat (with_empties s) = concat s.
+Proof.
+  unfold with_empties. simpl. induction s as [|c s IH]; [reflexivity|]. simpl. rewrite IH. reflexivity.
+Qed.
+
+Lemma all_splits_concat l : Forall (fun s => concat s = l) (all_splits l).
+Proof.
+  unfold all_splits. apply Forall_app; split; [apply splits_concat|].
+  apply Forall_forall. intros s Hs. apply in_map_iff in Hs as [s0 [<- H0]].
+  rewrite with_empties_concat. pose proof (splits_concat l) as H. rewrite Forall_forall in H. exact (H s0 H0).
+Qed.
+
+Theorem splits_holds cs data : spec_okb (ISplits cs data) (model (ISplits cs data)) = true.
+Proof.
+  cbn [spec_okb model]. rewrite sum_runs_rle, map_length, Nat.eqb_refl. cbn [andb].
+  apply rle_forall. rewrite forallb_map. apply forallb_forall. intros s Hs.
+  pose proof (all_splits_concat data) as H. rewrite Forall_forall in H. rewrite <- (H s Hs).
+  apply text_okb_stored.
+Qed.
+
+
+(* ================= 7. MIME: parse (render ct) = ct ================= *)
+(* ---- generic list-parsing lemmas ---- *)
+Lemma span_app_stop p a c r : forallb p a = true -> p c = false -> span p (a ++ c :: r) = (a, c :: r).
+Proof.
+  induction a as [|x a IH]; simpl; intros Ha Hc.
+  - rewrite Hc. reflexivity.
+  - apply andb_true_iff in Ha as [Hx Ha]. rewrite Hx, (IH Ha Hc). reflexivity.
+Qed.
+
+Lemma span_all p a : forallb p a = true -> span p a = (a, []).
+Proof.
+  induction a as [|x a IH]; simpl; intro Ha; [reflexivity|].
+  apply andb_true_iff in Ha as [Hx Ha]. rewrite Hx, (IH Ha). reflexivity.
+Qed.
+
+Lemma in_str_false c s x : in_str c s = false -> In x s -> c <> x.
+Proof.
+  unfold in_str. intros H Hx ->.
+  assert (existsb (N.eqb x) s = true); [|congruence].
+  apply existsb_exists. exists x. split; [exact Hx|apply N.eqb_refl].
+Qed.
+
+Lemma forallb_impl {A} (p q : A -> bool) l : (forall x, p x = true -> q x = true) -> forallb p l = true -> forallb q l = true.
+Proof. intros H Hp. apply forallb_forall. intros x Hx. apply H. rewrite forallb_forall in Hp. exact (Hp x Hx). Qed.
+
+Lemma forallb_app' {A} (p : A -> bool) a b : forallb p a = true -> forallb p b = true -> forallb p (a ++ b) = true.
+Proof. intros. rewrite forallb_app. apply andb_true_iff; split; assumption. Qed.
+
+(* ---- character classes ---- *)
+Lemma token_char_end c : token_char c = true -> token_end c = false.
+Proof. unfold token_char. intro H. apply andb_true_iff in H as [_ H]. apply negb_true_iff. exact H. Qed.
+
+Lemma attr_char_end c : attr_char c = true -> attr_end c = false.
+Proof. unfold attr_char. intro H. apply andb_true_iff in H as [_ H]. apply negb_true_iff. exact H. Qed.
+
+Lemma printable_not_space c : printable c = true -> is_space c = false.
+Proof.
+  unfold printable, is_space. intro H. apply andb_true_iff in H as [H1 H2].
+  apply N.leb_le in H1. apply N.leb_le in H2.
+  apply orb_false_iff; split; apply andb_false_iff.
+  - right. apply N.leb_gt. lia.
+  - right. apply N.leb_gt. lia.
+Qed.
+
+Lemma token_end_not c x : token_end c = false -> In x (sb "()<>@,:;\[]/?=") -> c <> x.
+Proof.
+  unfold token_end. intros H Hx. apply orb_false_iff in H as [H _]. apply orb_false_iff in H as [H _].
+  exact (in_str_false _ _ _ H Hx).
+Qed.
+
+Lemma token_end_not_wsp c : token_end c = false -> is_wsp c = false.
+Proof. unfold token_end. intro H. apply orb_false_iff in H as [_ H]. exact H. Qed.
+
+Lemma attr_end_token c : attr_end c = false -> token_end c = false.
+Proof. unfold attr_end. intro H. apply orb_false_iff in H as [H _]. exact H. Qed.
+
+Lemma In_59 : In 59%N (sb "()<>@,:;\[]/?="). Proof. vm_compute. tauto. Qed.
+Lemma In_47 : In 47%N (sb "()<>@,:;\[]/?="). Proof. vm_compute. tauto. Qed.
+
+(* ---- strip / lower are the identity on tokens ---- *)
+Lemma lstrip_id s : forallb (fun c => negb (is_space c)) s = true -> lstrip s = s.
+Proof.
+  unfold lstrip. destruct s as [|c s]; [reflexivity|]. simpl. intro H.
+  apply andb_true_iff in H as [H _]. apply negb_true_iff in H. rewrite H. reflexivity.
+Qed.
+
+Lemma forallb_rev {A} (p : A -> bool) l : forallb p l = true -> forallb p (rev l) = true.
+Proof.
+  intro H. apply forallb_forall. intros x Hx. apply in_rev in Hx. rewrite forallb_forall in H. exact (H x Hx).
+Qed.
+
+Lemma strip_id s : forallb (fun c => negb (is_space c)) s = true -> strip s = s.
+Proof.
+  intro H. unfold strip. rewrite (lstrip_id s H), (lstrip_id (rev s) (forallb_rev _ _ H)). apply rev_involutive.
+Qed.
+
+Lemma lower_id s : forallb (fun c => negb (is_upper c)) s = true -> lower s = s.
+Proof.
+  induction s as [|c s IH]; simpl; intro H; [reflexivity|].
+  apply andb_true_iff in H as [Hc Hs]. rewrite (IH Hs). unfold lower1. unfold is_upper in Hc.
+  apply negb_true_iff in Hc. rewrite Hc. reflexivity.
+Qed.
+
+Lemma count_char_app c a b : count_char c (a ++ b) = count_char c a + count_char c b.
+Proof. induction a as [|x a IH]; simpl; [reflexivity|]. rewrite IH. lia. Qed.
+
+Lemma count_char_zero c s : forallb (fun x => negb (x =? c)%N) s = true -> count_char c s = 0.
+Proof.
+  induction s as [|x s IH]; simpl; intro H; [reflexivity|].
+  apply andb_true_iff in H as [Hx Hs]. apply negb_true_iff in Hx. rewrite Hx, (IH Hs). reflexivity.
+Qed.
+
+Lemma split_on_none c s : forallb (fun x => negb (x =? c)%N) s = true -> split_on c s = [s].
+Proof.
+  induction s as [|x s IH]; simpl; intro H; [reflexivity|].
+  apply andb_true_iff in H as [Hx Hs]. apply negb_true_iff in Hx. rewrite Hx, (IH Hs). reflexivity.
+Qed.
+
+Lemma split_on_app c a b : forallb (fun x => negb (x =? c)%N) a = true ->
+  split_on c (a ++ c :: b) = a :: split_on c b.
+Proof.
+  induction a as [|x a IH]; simpl; intro H.
+  - rewrite N.eqb_refl. reflexivity.
+  - apply andb_true_iff in H as [Hx Ha]. apply negb_true_iff in Hx. rewrite Hx, (IH Ha). reflexivity.
+Qed.
+
+(* ---- the quoted string ---- *)
+Definition plain_char (c : N) : bool := negb (c =? 92)%N && negb (c =? DQ)%N.
+
+Lemma bqs_plain : forall v acc t, forallb plain_char v = true ->
+  bqs false acc (v ++ DQ :: t) = (rev acc ++ v, t).
+Proof.
+  induction v as [|c v IH]; intros acc t H.
+  - simpl. rewrite app_nil_r. reflexivity.
+  - simpl in H. apply andb_true_iff in H as [Hc Hv]. unfold plain_char in Hc.
+    apply andb_true_iff in Hc as [H1 H2]. apply negb_true_iff in H1. apply negb_true_iff in H2.
+    cbn [app bqs]. rewrite H1, H2, (IH _ _ Hv). simpl. rewrite <- app_assoc. reflexivity.
+Qed.
+
+(* ---- parameters ---- *)
+Definition okq (kv : str * str) : Prop :=
+  fst kv <> [] /\ forallb attr_char (fst kv) = true /\ forallb plain_char (snd kv) = true.
+
+Definition tail_of (qs : dict) : str := flat_map (fun q => 59%N :: 32%N :: item q) qs.
+
+Lemma item_eq kv : item kv = fst kv ++ 61%N :: 34%N :: snd kv ++ [34%N].
+Proof. reflexivity. Qed.
+
+Lemma attr_end_61 : attr_end 61 = true. Proof. reflexivity. Qed.
+Lemma token_end_47 : token_end 47 = true. Proof. reflexivity. Qed.
+Lemma token_end_59 : token_end 59 = true. Proof. reflexivity. Qed.
+
+Lemma parse_params_ok : forall rest q fuel, okq q -> Forall okq rest -> length rest < fuel ->
+  parse_params fuel (32%N :: item q ++ tail_of rest) = Some (q :: rest).
+Proof.
+  induction rest as [|q2 rest IH]; intros [name v] fuel [Hne [Hn Hv]] Hrest Hf;
+    (destruct fuel as [|f]; [simpl in Hf; lia|]); simpl fst in *; simpl snd in *;
+    destruct name as [|n0 name']; try congruence.
+  - cbn [parse_params]. rewrite item_eq. cbn [fst snd tail_of flat_map]. rewrite app_nil_r.
+    cbn [span]. change (is_wsp 32) with true. cbn iota.
+    assert (Hw : is_wsp n0 = false).
+    { simpl in Hn. apply andb_true_iff in Hn as [Hn _].
+      apply token_end_not_wsp, attr_end_token, attr_char_end. exact Hn. }
+    cbn [app span]. rewrite Hw. cbn [snd].
+    change (n0 :: name' ++ 61%N :: 34%N :: v ++ [34%N]) with ((n0 :: name') ++ 61%N :: 34%N :: v ++ [34%N]).
+    rewrite (span_app_stop (fun c => negb (attr_end c)) (n0 :: name') 61 (34%N :: v ++ [34%N])).
+    2:{ apply (forallb_impl attr_char); [|exact Hn]. intros c Hc. rewrite (attr_char_end c Hc). reflexivity. }
+    2:{ reflexivity. }
+    cbn iota beta. change (v ++ [34%N]) with (v ++ DQ :: []). rewrite (bqs_plain v [] [] Hv). reflexivity.
+  - cbn [parse_params]. rewrite item_eq. cbn [fst snd].
+    cbn [span]. change (is_wsp 32) with true. cbn iota.
+    assert (Hw : is_wsp n0 = false).
+    { simpl in Hn. apply andb_true_iff in Hn as [Hn _].
+      apply token_end_not_wsp, attr_end_token, attr_char_end. exact Hn. }
+    cbn [app span]. rewrite Hw. cbn [snd].
+    rewrite <- app_assoc. cbn [app]. rewrite <- app_assoc. cbn [app].
+    change (n0 :: name' ++ 61%N :: 34%N :: v ++ 34%N :: tail_of (q2 :: rest))
+      with ((n0 :: name') ++ 61%N :: 34%N :: v ++ 34%N :: tail_of (q2 :: rest)).
+    rewrite (span_app_stop (fun c => negb (attr_end c)) (n0 :: name') 61).
+    2:{ apply (forallb_impl attr_char); [|exact Hn]. intros c Hc. rewrite (attr_char_end c Hc). reflexivity. }
+    2:{ reflexivity. }
+    cbn iota beta. change (34%N :: tail_of (q2 :: rest)) with (DQ :: tail_of (q2 :: rest)).
+    rewrite (bqs_plain v [] _ Hv). cbn [rev app tail_of flat_map].
+    inversion Hrest as [|? ? Hq2 Hrest']; subst.
+    fold (tail_of rest). rewrite (IH q2 f Hq2 Hrest' ltac:(simpl in Hf; lia)). reflexivity.
+Qed.
+
+Lemma tail_of_length qs : length qs <= length (tail_of qs).
+Proof. induction qs as [|q qs IH]; simpl; [lia|]. rewrite app_length. lia. Qed.
+
+Lemma join_items q rest : sb "; " ++ join (sb "; ") (map item (q :: rest)) = 59%N :: 32%N :: item q ++ tail_of rest.
+Proof.
+  change (sb "; ") with [59%N; 32%N]. cbn [map join app]. do 3 f_equal.
+  induction rest as [|r rest IH]; [reflexivity|]. cbn [map flat_map tail_of]. rewrite IH. reflexivity.
+Qed.
+
+Definition tok (s : str) : Prop := s <> [] /\ forallb token_char s = true /\ forallb (fun c => negb (is_upper c)) s = true.
+
+Lemma token_ok_tok s : token_ok s = true -> tok s.
+Proof.
+  unfold token_ok, tok. intro H. apply andb_true_iff in H as [H1 H2]. repeat split.
+  - destruct s; [discriminate|discriminate].
+  - apply (forallb_impl _ _ _ (fun x Hx => proj1 (proj1 (andb_true_iff _ _) Hx)) H2).
+  - apply (forallb_impl _ _ _ (fun x Hx => proj2 (proj1 (andb_true_iff _ _) Hx)) H2).
+Qed.
+
+Lemma tok_not c s : In c (sb "()<>@,:;\[]/?=") -> forallb token_char s = true -> forallb (fun x => negb (x =? c)%N) s = true.
+Proof.
+  intros Hc. apply forallb_impl. intros x Hx. apply negb_true_iff. apply N.eqb_neq.
+  apply (token_end_not x c); [apply token_char_end; exact Hx|exact Hc].
+Qed.
+
+Lemma tok_no_space s : forallb token_char s = true -> forallb (fun c => negb (is_space c)) s = true.
+Proof.
+  apply forallb_impl. intros x Hx. unfold token_char in Hx. apply andb_true_iff in Hx as [Hp _].
+  rewrite (printable_not_space x Hp). reflexivity.
+Qed.
+
+Lemma tok_span_end s : forallb token_char s = true -> forallb (fun c => negb (token_end c)) s = true.
+Proof. apply forallb_impl. intros x Hx. rewrite (token_char_end x Hx). reflexivity. Qed.
+
+(* the header: type/subtype followed by nothing or by "; k="v"; ..." *)
+Lemma header_params_ok t u qs : tok t -> tok u -> Forall okq qs ->
+  header_params (t ++ 47%N :: u ++ tail_of qs) = Some qs.
+Proof.
+  intros [Ht [Htc _]] [Hu [Huc _]] Hq. unfold header_params.
+  rewrite (span_app_stop _ t 47 _ (tok_span_end t Htc) eq_refl).
+  destruct t as [|t0 t']; [congruence|].
+  destruct qs as [|q rest].
+  - cbn [tail_of flat_map]. rewrite app_nil_r, (span_all _ u (tok_span_end u Huc)).
+    destruct u; [congruence|reflexivity].
+  - cbn [tail_of flat_map]. fold (tail_of rest). cbn [app].
+    rewrite (span_app_stop _ u 59 _ (tok_span_end u Huc) eq_refl).
+    destruct u as [|u0 u']; [congruence|].
+    inversion Hq as [|? ? Hq1 Hq2]; subst.
+    apply parse_params_ok; [exact Hq1|exact Hq2|].
+    pose proof (tail_of_length rest). cbn [length]. rewrite app_length. lia.
+Qed.
+
+Lemma get_content_type_ok t u X : tok t -> tok u -> (X = [] \/ exists Y, X = 59%N :: Y) ->
+  get_content_type (t ++ 47%N :: u ++ X) = t ++ 47%N :: u.
+Proof.
+  intros [Ht [Htc Htl]] [Hu [Huc Hul]] HX. unfold get_content_type.
+  assert (H59 : forallb (fun c => negb (c =? 59)%N) (t ++ 47%N :: u) = true).
+  { apply forallb_app'; [apply (tok_not 59 t In_59 Htc)|]. simpl. apply (tok_not 59 u In_59 Huc). }
+  assert (Hhead : fst (span (fun c => negb (c =? 59)%N) (t ++ 47%N :: u ++ X)) = t ++ 47%N :: u).
+  { destruct HX as [->|[Y ->]].
+    - rewrite app_nil_r, (span_all _ _ H59). reflexivity.
+    - change (t ++ 47%N :: u ++ 59%N :: Y) with (t ++ (47%N :: u) ++ 59%N :: Y). rewrite app_assoc.
+      rewrite (span_app_stop _ (t ++ 47%N :: u) 59 Y H59 eq_refl). reflexivity. }
+  rewrite Hhead.
+  assert (Hsp : forallb (fun c => negb (is_space c)) (t ++ 47%N :: u) = true).
+  { apply forallb_app'; [apply tok_no_space; exact Htc|]. simpl. apply tok_no_space; exact Huc. }
+  rewrite (strip_id _ Hsp).
+  assert (Hlo : forallb (fun c => negb (is_upper c)) (t ++ 47%N :: u) = true).
+  { apply forallb_app'; [exact Htl|]. simpl. exact Hul. }
+  rewrite (lower_id _ Hlo).
+  rewrite count_char_app. cbn [count_char]. change (47 =? 47)%N with true.
+  rewrite (count_char_zero 47 t (tok_not 47 t In_47 Htc)), (count_char_zero 47 u (tok_not 47 u In_47 Huc)).
+  reflexivity.
+Qed.
+
+(* ---- the dict pipeline is the identity on distinct lower-case names ---- *)
+Lemma lookup_none k d : ~ In k (map fst d) -> lookup k d = None.
+Proof.
+  induction d as [|[k' v] d IH]; simpl; intro H; [reflexivity|].
+  destruct (str_eqb k' k) eqn:E.
+  - apply str_eqb_spec in E. subst. exfalso. apply H. left. reflexivity.
+  - apply IH. intro Hin. apply H. right. exact Hin.
+Qed.
+
+Lemma first_wins_id : forall qs acc, NoDup (map fst (acc ++ qs)) ->
+  fold_left (fun d kv => match lookup (fst kv) d with Some _ => d | None => d ++ [kv] end) qs acc = acc ++ qs.
+Proof.
+  induction qs as [|kv qs IH]; intros acc H; simpl; [rewrite app_nil_r; reflexivity|].
+  rewrite lookup_none.
+  - rewrite IH; [rewrite <- app_assoc; reflexivity|rewrite <- app_assoc; exact H].
+  - rewrite map_app in H. simpl in H. apply NoDup_remove_2 in H. intro Hin. apply H.
+    apply in_or_app. left. exact Hin.
+Qed.
+
+Lemma dict_set_new d k v : ~ In k (map fst d) -> dict_set d k v = d ++ [(k, v)].
+Proof.
+  induction d as [|[k' v'] d IH]; simpl; intro H; [reflexivity|].
+  destruct (str_eqb k' k) eqn:E.
+  - apply str_eqb_spec in E. subst. exfalso. apply H. left. reflexivity.
+  - rewrite IH; [reflexivity|]. intro Hin. apply H. right. exact Hin.
+Qed.
+
+Lemma lowered_id : forall qs acc, NoDup (map fst (acc ++ qs)) ->
+  Forall (fun kv => lower (fst kv) = fst kv) qs ->
+  fold_left (fun d kv => dict_set d (lower (fst kv)) (snd kv)) qs acc = acc ++ qs.
+Proof.
+  induction qs as [|[k v] qs IH]; intros acc H HF; simpl; [rewrite app_nil_r; reflexivity|].
+  inversion HF as [|? ? Hk HF']; subst. simpl in Hk. rewrite Hk.
+  rewrite dict_set_new.
+  - rewrite IH; [rewrite <- app_assoc; reflexivity|rewrite <- app_assoc; exact H|exact HF'].
+  - rewrite map_app in H. simpl in H. apply NoDup_remove_2 in H. intro Hin. apply H.
+    apply in_or_app. left. exact Hin.
+Qed.
+
+Lemma cut_comma_id v : in_str 44 v = false -> cut_comma v = v.
+Proof.
+  intro H. unfold cut_comma. rewrite span_all; [reflexivity|].
+  apply forallb_forall. intros c Hc. apply negb_true_iff. apply N.eqb_neq. intro E. subst.
+  exact (in_str_false _ _ _ H Hc eq_refl).
+Qed.
+
+Lemma fix_charset_id qs :
+  Forall (fun kv => negb (str_eqb (fst kv) s_charset) || negb (in_str 44 (snd kv)) = true) qs -> fix_charset qs = qs.
+Proof.
+  unfold fix_charset. induction 1 as [|[k v] qs Hkv _ IH]; simpl; [reflexivity|]. rewrite IH. f_equal.
+  simpl in Hkv. destruct (str_eqb k s_charset); [|reflexivity].
+  simpl in Hkv. apply negb_true_iff in Hkv. rewrite (cut_comma_id v Hkv). reflexivity.
+Qed.
+
+(* ---- dict equality up to order ---- *)
+Lemma distinct_NoDup l : distinct l = true -> NoDup l.
+Proof.
+  induction l as [|x l IH]; simpl; intro H; [constructor|].
+  apply andb_true_iff in H as [H1 H2]. constructor; [|apply IH; exact H2].
+  intro Hin. apply negb_true_iff in H1.
+  assert (existsb (str_eqb x) l = true); [|congruence].
+  apply existsb_exists. exists x. split; [exact Hin|apply str_eqb_refl].
+Qed.
+
+Lemma lookup_in d : NoDup (map fst d) -> forall k v, In (k, v) d -> lookup k d = Some v.
+Proof.
+  induction d as [|[k' v'] d IH]; simpl; intros H k v Hin; [destruct Hin|].
+  inversion H as [|? ? Hn Hd]; subst.
+  destruct Hin as [E|Hin].
+  - injection E as -> ->. rewrite str_eqb_refl. reflexivity.
+  - destruct (str_eqb k' k) eqn:E.
+    + apply str_eqb_spec in E. subst. exfalso. apply Hn. apply (in_map fst) in Hin. exact Hin.
+    + apply IH; assumption.
+Qed.
+
+Lemma dict_eqb_perm a b : Permutation a b -> NoDup (map fst b) -> dict_eqb a b = true.
+Proof.
+  intros P Hb. unfold dict_eqb. rewrite (Permutation_length P), Nat.eqb_refl. simpl.
+  apply forallb_forall. intros [k v] Hin. simpl.
+  rewrite (lookup_in b Hb k v (Permutation_in _ P Hin)). simpl. apply str_eqb_refl.
+Qed.
+
+(* ---- unpacking wf_ct ---- *)
+Lemma value_char_plain c : value_char c = true -> (c =? 92)%N = false -> plain_char c = true.
+Proof.
+  unfold value_char, plain_char. intros H Hb. apply andb_true_iff in H as [_ H]. rewrite Hb, H. reflexivity.
+Qed.
+
+Record good (kv : str * str) : Prop := {
+  g_okq : okq kv;
+  g_low : lower (fst kv) = fst kv;
+  g_cs : negb (str_eqb (fst kv) s_charset) || negb (in_str 44 (snd kv)) = true }.
+
+Lemma wf_ct_unpack ct : wf_ct ct = true ->
+  tok (ct_type ct) /\ tok (ct_sub ct) /\ NoDup (map fst (ct_params ct)) /\ Forall good (ct_params ct).
+Proof.
+  unfold wf_ct, mime_dom. intro H.
+  apply andb_true_iff in H as [H Hx]. apply andb_true_iff in H as [H Hd].
+  apply andb_true_iff in H as [H Hp]. apply andb_true_iff in H as [Ht Hu].
+  split; [apply token_ok_tok; exact Ht|]. split; [apply token_ok_tok; exact Hu|].
+  split; [apply distinct_NoDup; exact Hd|].
+  apply Forall_forall. intros [k v] Hin.
+  rewrite forallb_forall in Hp, Hx. specialize (Hp _ Hin). specialize (Hx _ Hin). simpl in Hp, Hx.
+  apply andb_true_iff in Hp as [Hn Hv]. apply andb_true_iff in Hx as [Hx Hc]. apply andb_true_iff in Hx as [Hl Hb].
+  unfold name_ok in Hn. apply andb_true_iff in Hn as [Hn1 Hn2].
+  unfold value_ok in Hv. repeat (apply andb_true_iff in Hv as [Hv _]).
+  apply negb_true_iff in Hb.
+  constructor; simpl.
+  - repeat split; simpl.
+    + destruct k; discriminate.
+    + exact Hn2.
+    + apply forallb_forall. intros c Hc'. rewrite forallb_forall in Hv.
+      apply value_char_plain; [exact (Hv c Hc')|]. apply N.eqb_neq. intro E; subst.
+      exact (in_str_false _ _ _ Hb Hc' eq_refl).
+  - apply lower_id. exact Hl.
+  - exact Hc.
+Qed.
+
+(* ---- the round trip ---- *)
+Theorem mime_roundtrip ct : wf_ct ct = true ->
+  exists ct', make_content_type (render ct) = Ok ct'
+              /\ ct_type ct' = ct_type ct /\ ct_sub ct' = ct_sub ct
+              /\ Permutation (ct_params ct) (ct_params ct').
+Proof.
+  intro Hwf. destruct (wf_ct_unpack ct Hwf) as [Ht [Hu [Hnd Hg]]].
+  destruct ct as [t u ps]. cbn [ct_type ct_sub ct_params] in *.
+  (* the sorted items are the items of a permutation qs of ps *)
+  pose proof (Permutation_sym (isort_perm str_leb (map item ps))) as Hp0.
+  apply Permutation_map_inv in Hp0 as [qs [Eqs Pqs]].
+  assert (Hgq : Forall good qs).
+  { apply Forall_forall. intros kv Hin. rewrite Forall_forall in Hg. apply Hg.
+    exact (Permutation_in _ (Permutation_sym Pqs) Hin). }
+  assert (Hndq : NoDup (map fst qs)).
+  { exact (Permutation_NoDup (Permutation_map fst Pqs) Hnd). }
+  assert (Hren : render {| ct_type := t; ct_sub := u; ct_params := ps |} = t ++ 47%N :: u ++ tail_of qs).
+  { unfold render. cbn [ct_type ct_sub ct_params]. change (sb "/") with [47%N]. cbn [app]. do 2 f_equal.
+    destruct ps as [|p ps'].
+    - apply Permutation_nil in Pqs. subst qs. reflexivity.
+    - rewrite Eqs. destruct qs as [|q rest]; [apply Permutation_sym, Permutation_nil in Pqs; discriminate|].
+      rewrite join_items. reflexivity. }
+  exists {| ct_type := t; ct_sub := u; ct_params := qs |}. cbn [ct_type ct_sub ct_params].
+  split; [|repeat split; exact Pqs].
+  unfold make_content_type. rewrite Hren.
+  rewrite (header_params_ok t u qs Ht Hu).
+  2:{ apply Forall_forall. intros kv Hin. rewrite Forall_forall in Hgq. exact (g_okq _ (Hgq kv Hin)). }
+  rewrite (get_content_type_ok t u (tail_of qs) Ht Hu).
+  2:{ destruct qs; [left; reflexivity|right; eexists; reflexivity]. }
+  destruct Ht as [Htn [Htc Htl]]. destruct Hu as [Hun [Huc Hul]].
+  replace (str_eqb (t ++ 47%N :: u) (sb "*")) with false.
+  2:{ symmetry. apply not_true_iff_false. intro E. apply str_eqb_spec in E.
+      apply (f_equal (@length N)) in E. rewrite app_length in E. simpl in E. destruct t; [congruence|simpl in E; lia]. }
+  rewrite (split_on_app 47 t u (tok_not 47 t In_47 Htc)), (split_on_none 47 u (tok_not 47 u In_47 Huc)).
+  rewrite (strip_id t (tok_no_space t Htc)), (strip_id u (tok_no_space u Huc)).
+  unfold first_wins, lowered.
+  rewrite (first_wins_id qs [] Hndq). cbn [app].
+  rewrite (lowered_id qs [] Hndq).
+  2:{ apply Forall_forall. intros kv Hin. rewrite Forall_forall in Hgq. exact (g_low _ (Hgq kv Hin)). }
+  cbn [app]. rewrite fix_charset_id; [reflexivity|].
+  apply Forall_forall. intros kv Hin. rewrite Forall_forall in Hgq. exact (g_cs _ (Hgq kv Hin)).
+Qed.
+
+Theorem mime_holds ct : wf_ct ct = true -> spec_okb (IMime ct) (model (IMime ct)) = true.
+Proof.
+  intro Hwf. destruct (mime_roundtrip ct Hwf) as [ct' [E [E1 [E2 P]]]].
+  cbn [spec_okb model]. rewrite E. unfold ct_eqb, canon_ct. cbn [ct_type ct_sub ct_params].
+  rewrite E1, E2, !str_eqb_refl. cbn [andb].
+  apply dict_eqb_perm.
+  - apply Permutation_sym. etransitivity; [exact P|]. apply isort_perm.
+  - destruct (wf_ct_unpack ct Hwf) as [_ [_ [Hnd _]]]. exact Hnd.
+Qed.
+
+
+(* ================= 8. the model meets the statement ================= *)
+Theorem model_meets_spec i : wf i = true -> finding_F16 i = false -> spec_okb i (model i) = true.
+Proof.
+  destruct i as [s|d|ct chunks|cs data|r|r|ta ca tb cb|ct]; intros Hwf Hf.
+  - (* text_content *)
+    cbn [spec_okb model]. simpl in Hwf.
+    rewrite (text_roundtrip s w0 Hwf). cbn [fst]. rewrite tres_eqb_refl. cbn [andb].
+    unfold text_content. rewrite iter_bytes_stored. cbn [fst joined concat]. rewrite app_nil_r.
+    assert (F1 : str_eqb (ct_type (canon_ct Gen.Ctc16.UTF8_TEXT)) (sb "text") = true) by (vm_compute; reflexivity).
+    assert (F2 : codec_of (declared_charset (canon_ct Gen.Ctc16.UTF8_TEXT)) = Some utf8) by (vm_compute; reflexivity).
+    unfold text_okb. cbn [c_type]. rewrite F1, F2.
+    unfold whole. rewrite (utf8_roundtrip s Hwf). apply tres_eqb_refl.
+  - (* json_content *)
+    cbn [spec_okb model]. simpl in Hwf. unfold json_content. rewrite iter_bytes_stored.
+    cbn [fst joined concat]. rewrite app_nil_r. unfold whole. rewrite (utf8_roundtrip d Hwf). apply tres_eqb_refl.
+  - cbn [spec_okb model]. rewrite iter_bytes_stored. cbn [fst joined]. rewrite bytes_eqb_refl. cbn [andb].
+    apply text_okb_stored.
+  - apply splits_holds.
+  - apply reader_holds. simpl in Hwf. apply Nat.leb_le. exact Hwf.
+  - apply snap_holds. simpl in Hwf. apply Nat.leb_le. exact Hwf.
+  - cbn [spec_okb model]. rewrite content_eq_stored. cbn [fst]. rewrite !eqb_reflx. reflexivity.
+  - apply mime_holds. simpl in Hf. apply negb_false_iff. exact Hf.
+Qed.
+
+Theorem refuted_F16 : exists i, wf i = true /\ finding_F16 i = true /\ spec_okb i (model i) = false.
+Proof.
+  exists (IMime {| ct_type := sb "text"; ct_sub := sb "plain"; ct_params := [(sb "a", sb "b\c")] |}).
+  vm_compute. repeat split.
+Qed.
+
+(* ================= 9. the executable statement implies the readable one ================= *)
+Lemma text_okb_sound ct bs t : text_okb ct bs t = true -> TextOk ct bs t.
+Proof.
+  unfold text_okb, TextOk. intros H Ht C HC.
+  apply str_eqb_spec in Ht. rewrite Ht, HC in H. apply tres_eqb_spec. exact H.
+Qed.
+
+Lemma chunks_okb_sound n cs bs : chunks_okb n cs bs = true -> ChunksOk n cs bs.
+Proof.
+  unfold chunks_okb, ChunksOk. intro H. apply andb_true_iff in H as [H H3]. apply andb_true_iff in H as [H1 H2].
+  repeat split.
+  - apply Forall_forall. intros c Hc. rewrite forallb_forall in H1. specialize (H1 c Hc). destruct c; [discriminate|discriminate].
+  - apply Forall_forall. intros c Hc. rewrite forallb_forall in H2. apply Nat.leb_le. exact (H2 c Hc).
+  - apply bytes_eqb_spec. exact H3.
+Qed.
+
+Lemma iter_okb_sound n r w : iter_okb n r w = true -> IterOk n r w.
+Proof.
+  unfold iter_okb, IterOk. destruct w as [bs|e], r as [cs|f]; intro H; try discriminate.
+  - exists cs. split; [reflexivity|apply chunks_okb_sound; exact H].
+  - apply exn_eqb_spec in H. subst. reflexivity.
+Qed.
+
+Lemma joined_okb_sound r w : joined_okb r w = true -> JoinedOk r w.
+Proof.
+  unfold joined_okb, JoinedOk. destruct w as [bs|e], r as [cs|f]; intro H; try discriminate.
+  - exists cs. split; [reflexivity|apply bytes_eqb_spec; exact H].
+  - apply exn_eqb_spec in H. subst. reflexivity.
+Qed.
+
+Lemma dict_eqb_iff a b : dict_eqb a b = true <->
+  length a = length b /\ forall kv, In kv a -> lookup (fst kv) b = Some (snd kv).
+Proof.
+  unfold dict_eqb. rewrite andb_true_iff, Nat.eqb_eq, forallb_forall.
+  split; intros [H1 H2]; (split; [exact H1|]); intros kv Hin; specialize (H2 kv Hin).
+  - apply (option_eqb_spec str_eqb str_eqb_spec). exact H2.
+  - apply (option_eqb_spec str_eqb str_eqb_spec). exact H2.
+Qed.
+
+Lemma ct_eqb_iff a b : ct_eqb a b = true <-> CtSame a b.
+Proof.
+  unfold ct_eqb, CtSame. rewrite !andb_true_iff, !str_eqb_spec, dict_eqb_iff. tauto.
+Qed.
+
+Theorem spec_okb_sound i o : spec_okb i o = true -> Spec i o.
+Proof.
+  destruct i as [s|d|ct chunks|cs data|r|r|ta ca tb cb|ct], o as [ct' b t|ct' b|b t|runs|cr rc i1 r1 i2 r2|cp sm c1 c2 ra og|e ne|res];
+    cbn [spec_okb Spec]; try discriminate; intro H.
+  - apply andb_true_iff in H as [H1 H2]. split; [apply tres_eqb_spec; exact H1|apply text_okb_sound; exact H2].
+  - apply tres_eqb_spec. exact H.
+  - apply andb_true_iff in H as [H1 H2]. split; [apply bytes_eqb_spec; exact H1|apply text_okb_sound; exact H2].
+  - apply andb_true_iff in H as [H1 H2]. split; [apply Nat.eqb_eq; exact H1|].
+    apply Forall_forall. intros p Hp. rewrite forallb_forall in H2. apply text_okb_sound. exact (H2 p Hp).
+  - (* reader *)
+    unfold reader_okb in H. unfold ReaderSpec. destruct (r_buffer r).
+    + destruct (want (r_kind r) (r_data0 r) (r_pos0 r) (r_seek r)) as [bs|e0], cr as [f|]; try discriminate.
+      * apply andb_true_iff in H as [H H4]. apply andb_true_iff in H as [H H3]. apply andb_true_iff in H as [H1 H2].
+        destruct i1 as [c1|]; [|discriminate]. destruct i2 as [c2|]; [|discriminate].
+        apply andb_true_iff in H4 as [H4 H5]. apply chunks_eqb_spec in H5. subst c2.
+        apply negb_true_iff in H2. apply negb_true_iff in H3.
+        repeat split; try assumption. exists c1. split; [reflexivity|split; [reflexivity|apply chunks_okb_sound; exact H4]].
+      * apply exn_eqb_spec in H. subst. reflexivity.
+    + destruct cr; [discriminate|].
+      apply andb_true_iff in H as [H H3]. apply andb_true_iff in H as [H1 H2]. apply negb_true_iff in H1.
+      repeat split; try assumption; [apply iter_okb_sound; exact H2|].
+      unfold want in H3 |- *.
+      destruct (start_of (r_kind r) (length (r_data1 r)) (r_pos1 r) (r_seek r)) as [p|e0]; apply iter_okb_sound; exact H3.
+  - (* snapshot *)
+    unfold snap_okb in H. unfold SnapSpec.
+    destruct (want (r_kind r) (r_data0 r) (r_pos0 r) (r_seek r)) as [bs|e0], cp as [f|]; try discriminate.
+    + apply andb_true_iff in H as [H H5]. apply andb_true_iff in H as [H H4]. apply andb_true_iff in H as [H H3].
+      apply andb_true_iff in H as [H1 H2]. apply negb_true_iff in H2.
+      repeat split; try assumption; apply joined_okb_sound; assumption.
+    + apply exn_eqb_spec in H. subst. reflexivity.
+  - (* eq *)
+    apply andb_true_iff in H as [H1 H2]. apply (proj1 (bool_eqb_spec _ _)) in H1. apply (proj1 (bool_eqb_spec _ _)) in H2.
+    split; [|exact H2]. rewrite H1, andb_true_iff, ct_eqb_iff. unfold bytes_eqb. rewrite bytes_eqb_spec. tauto.
+  - (* mime *)
+    destruct res as [c|]; [|discriminate]. exists c. split; [reflexivity|apply ct_eqb_iff; exact H].
+Qed.
+
+(* ================= 10. the comparison is exact on what it compares ================= *)
+Lemma perr_eqb_spec a b : perr_eqb a b = true <-> a = b.
+Proof. destruct a, b; simpl; split; congruence. Qed.
+
+Lemma ctype_eqb_spec a b : ctype_eqb a b = true <-> a = b.
+Proof.
+  unfold ctype_eqb. rewrite !andb_true_iff, !str_eqb_spec.
+  unfold dict_eqb_exact. rewrite (list_eqb_spec _ (pair_eqb_spec _ _ str_eqb_spec str_eqb_spec)).
+  destruct a, b; simpl. split; [intros [[-> ->] ->]; reflexivity|intro E; injection E as -> -> ->; auto].
+Qed.
+
+Lemma bres_eqb_spec a b : bres_eqb a b = true <-> alpha_b a = alpha_b b.
+Proof.
+  unfold bres_eqb. apply res_eqb_spec; [|apply exn_eqb_spec].
+  apply pair_eqb_spec; [apply bytes_eqb_spec|apply bool_eqb_spec].
+Qed.
+
+Lemma runs_eqb_spec (a b : list (tres * nat)) : list_eqb (pair_eqb tres_eqb Nat.eqb) a b = true <-> a = b.
+Proof. apply list_eqb_spec. apply pair_eqb_spec; [apply tres_eqb_spec|apply Nat.eqb_eq]. Qed.
+
+Lemma oexn_eqb_spec (a b : option exn) : option_eqb exn_eqb a b = true <-> a = b.
+Proof. apply option_eqb_spec. apply exn_eqb_spec. Qed.
+
+Lemma rmime_eqb_spec (a b : res ctype perr) : res_eqb ctype_eqb perr_eqb a b = true <-> a = b.
+Proof. apply res_eqb_spec; [apply ctype_eqb_spec|apply perr_eqb_spec]. Qed.
+
+Theorem obs_eqb_spec a b : obs_eqb a b = true <-> alpha a = alpha b.
+Proof.
+  destruct a, b; cbn [obs_eqb alpha]; try (split; [discriminate|discriminate]);
+    rewrite ?andb_true_iff, ?ctype_eqb_spec, ?bytes_eqb_spec, ?tres_eqb_spec, ?runs_eqb_spec, ?oexn_eqb_spec,
+            ?bool_eqb_spec, ?bres_eqb_spec, ?rmime_eqb_spec;
+    (split; [intro H; decompose [and] H; congruence | intro E; injection E; intros; subst; repeat split; assumption]).
+Qed.
+
+
+(* ================= 11. the per-clause theorems of DESIGN section 6 ================= *)
+(* C16_bytes *)
+Theorem bytes_stored ct cs w : iter_bytes {| c_type := ct; c_src := Stored cs |} w = (Ok cs, w).
+Proof. reflexivity. Qed.
+
+Theorem bytes_text s w : iter_bytes (text_content s) w = (Ok [utf8_encode s], w).
+Proof. reflexivity. Qed.
+
+Theorem bytes_live ct k n sk w p : 1 <= n -> start_of k (length (w_data w)) (w_pos w) sk = Ok p ->
+  exists cs w', iter_bytes {| c_type := ct; c_src := Live k n sk |} w = (Ok cs, w')
+                /\ concat cs = skipn p (w_data w) /\ w_data w' = w_data w.
+Proof.
+  intros Hn Hs. destruct (run_reader_ok k n sk w p Hn Hs) as [cs [R [_ [_ Hc]]]].
+  exists cs. eexists. split; [exact R|]. split; [exact Hc|reflexivity].
+Qed.
+
+(* C16_chunking, instantiated *)
+Theorem as_text_whole C ct chunks w :
+  ct_type ct = sb "text" -> codec_of (declared_charset ct) = Some C ->
+  fst (as_text {| c_type := ct; c_src := Stored chunks |} w) = whole C (concat chunks).
+Proof.
+  intros Ht HC. rewrite as_text_stored, Ht, HC, str_eqb_refl. reflexivity.
+Qed.
+
+Theorem as_text_split_indep ct c1 c2 w : concat c1 = concat c2 ->
+  fst (as_text {| c_type := ct; c_src := Stored c1 |} w) = fst (as_text {| c_type := ct; c_src := Stored c2 |} w).
+Proof. intro E. rewrite !as_text_stored, E. reflexivity. Qed.
+
+Theorem utf8_undecodable_every_split chunks :
+  decode_whole utf8 (concat chunks) = None <-> iter_text_loop utf8 U0 chunks = None.
+Proof.
+  pose proof (chunking utf8 chunks) as H. unfold joined_text in H. change (dinit utf8) with U0 in H.
+  destruct (iter_text_loop utf8 U0 chunks); simpl in H; rewrite <- H; split; congruence.
+Qed.
+
+Theorem latin1_total bs : decode_whole latin1 bs = Some bs.
+Proof.
+  unfold decode_whole. simpl.
+  assert (H : forall s, feed latin1 s bs = Some (tt, bs)).
+  { induction bs as [|b bs IH]; intro s; simpl; [destruct s; reflexivity|]. rewrite IH. reflexivity. }
+  rewrite H. simpl. rewrite app_nil_r. reflexivity.
+Qed.
+
+(* C16_json: for every dumps function *)
+Theorem json_bytes (J : Type) (dumps : J -> list N) d w :
+  iter_bytes (json_content J dumps d) w = (Ok [utf8_encode (dumps d)], w)
+  /\ c_type (json_content J dumps d) = Gen.Ctc16.JSON
+  /\ (forallb is_scalar (dumps d) = true -> decode_whole utf8 (utf8_encode (dumps d)) = Some (dumps d)).
+Proof. repeat split. apply utf8_roundtrip. Qed.
+
+(* C16_iter_chunks *)
+Theorem seek_bytesio_clamps len off :
+  seek_pos KBytesIO len off SeekEnd = Ok (Z.to_nat (Z.max 0 (Z.of_nat len + off))).
+Proof.
+  unfold seek_pos. destruct (Z.ltb_spec (Z.of_nat len + off) 0).
+  - rewrite Z.max_l by lia. reflexivity.
+  - rewrite Z.max_r by lia. reflexivity.
+Qed.
+
+Theorem iter_chunks_spec k n off wh w : 1 <= n ->
+  match seek_pos k (length (w_data w)) off wh with
+  | Ok p => exists cs, run_reader k n (Some (off, wh)) w = (Ok cs, after_read k w p (S (length cs)))
+                       /\ Forall (fun c => c <> []) cs /\ Forall (fun c => length c <= n) cs
+                       /\ concat cs = skipn p (w_data w)
+  | Raised e => run_reader k n (Some (off, wh)) w = (Raised e, w)
+  end.
+Proof.
+  intro Hn. destruct (seek_pos k (length (w_data w)) off wh) as [p|e] eqn:E.
+  - apply run_reader_ok; [exact Hn|exact E].
+  - apply run_reader_raises. exact E.
+Qed.
+
+(* C16_lazy *)
+Theorem lazy_creation k ct n sk w :
+  content_from_source k ct n false sk w
+  = (Ok {| c_type := match ct with None => Gen.Ctc16.UTF8_TEXT | Some c => c end; c_src := Live k n sk |}, w).
+Proof. reflexivity. Qed.
+
+Theorem lazy_iteration ct k n sk w' : iter_bytes {| c_type := ct; c_src := Live k n sk |} w' = run_reader k n sk w'.
+Proof. reflexivity. Qed.
+
+Theorem buffered_creation k ct n sk w :
+  match run_reader k n sk w with
+  | (Ok cs, w1) =>
+      exists c, content_from_source k ct n true sk w = (Ok c, w1)
+                /\ forall w', iter_bytes c w' = (Ok cs, w')
+  | (Raised e, w1) => content_from_source k ct n true sk w = (Raised e, w1)
+  end.
+Proof.
+  unfold content_from_source, content_from_reader. cbn [iter_src].
+  destruct (run_reader k n sk w) as [[cs|e] w1]; [|reflexivity].
+  eexists. split; [reflexivity|]. intro w'. reflexivity.
+Qed.
+
+(* C16_snapshot *)
+Theorem snapshot c w cp w1 : copy_content c w = (Ok cp, w1) ->
+  c_type cp = c_type c
+  /\ exists cs, iter_bytes c w = (Ok cs, w1) /\ forall w', iter_bytes cp w' = (Ok cs, w').
+Proof.
+  unfold copy_content. destruct (iter_bytes c w) as [[cs|e] w2]; intro H; [|discriminate].
+  injection H as <- <-. split; [reflexivity|]. exists cs. split; [reflexivity|]. intro w'. reflexivity.
+Qed.
+
+(* C16_eq *)
+Theorem eq_iff ta ca tb cb w :
+  fst (content_eq {| c_type := ta; c_src := Stored ca |} {| c_type := tb; c_src := Stored cb |} w) = Ok true
+  <-> CtSame ta tb /\ concat ca = concat cb.
+Proof.
+  rewrite content_eq_stored. cbn [fst]. rewrite <- ct_eqb_iff, <- bytes_eqb_spec, <- andb_true_iff.
+  split; [intro H; injection H; auto|intro H; rewrite H; reflexivity].
+Qed.
+
+(* C16_mime_roundtrip *)
+Theorem mime_roundtrip_same ct : wf_ct ct = true ->
+  exists ct', make_content_type (render ct) = Ok ct' /\ CtSame ct' ct.
+Proof.
+  intro Hwf. destruct (mime_roundtrip ct Hwf) as [ct' [E [E1 [E2 P]]]].
+  exists ct'. split; [exact E|]. apply ct_eqb_iff. unfold ct_eqb. rewrite E1, E2, !str_eqb_refl. cbn [andb].
+  apply dict_eqb_perm; [apply Permutation_sym; exact P|].
+  destruct (wf_ct_unpack ct Hwf) as [_ [_ [Hnd _]]]. exact Hnd.
+Qed.
+
+(* the enumeration behind "every split" is complete *)
+Lemma concat_nil_nonempty (s : list chunk) : Forall (fun c => c <> []) s -> concat s = [] -> s = [].
+Proof.
+  destruct s as [|c s]; [reflexivity|]. intros H E. inversion H; subst. simpl in E.
+  apply app_eq_nil in E as [E _]. congruence.
+Qed.
+
+Theorem splits_complete : forall l s, Forall (fun c => c <> []) s -> concat s = l -> In s (splits l).
+Proof.
+  induction l as [|x r IH]; intros s Hs E.
+  - rewrite (concat_nil_nonempty s Hs E). left. reflexivity.
+  - destruct s as [|c0 t]; [discriminate|]. inversion Hs as [|? ? Hc0 Ht]; subst.
+    destruct c0 as [|x0 c0']; [congruence|]. simpl in E. injection E as -> E.
+    cbn [splits]. destruct r as [|y r'].
+    + apply app_eq_nil in E as [-> E]. rewrite (concat_nil_nonempty t Ht E). left. reflexivity.
+    + apply in_flat_map. destruct c0' as [|z c0''].
+      * simpl in E. exists t. split; [apply IH; assumption|].
+        destruct t as [|c t']; [discriminate|]. right. left. reflexivity.
+      * exists ((z :: c0'') :: t). split.
+        -- apply IH; [constructor; [discriminate|exact Ht]|exact E].
+        -- left. reflexivity.
+Qed.
